@@ -13,7 +13,8 @@ Decimal comparisons (model/NumFn.v cparams):
                         0: in i16 with `i16::clamp(max_int_digits + max_scale as i16, 1, D::MAX_PRECISION as i16)`
   u64_dec_precision     arrays/datatype.rs DecimalTypeMeta::new_for_datatype_id(UInt64).precision (19 or 20)
   wide_dec128           cast/builtin/to_decimal.rs  0: Int64, UInt64, Decimal64 -> Decimal128 use TO_DECIMAL128_CAST_RULE and UInt64 -> Decimal64
-                        is implicit; 1: those three use WIDE_TO_DECIMAL128_CAST_RULE (= f64 score + 2, cast/mod.rs) and UInt64 -> Decimal64 is Explicit"""
+                        is implicit; 1: Int64 / UInt64 -> Decimal128 use INT64_TO_DECIMAL128_CAST_RULE (f64 score - 1), Decimal64 -> Decimal128 uses
+                        DECIMAL64_TO_DECIMAL128_CAST_RULE (f64 score + 2; together 363 > 362) and UInt64 -> Decimal64 is Explicit"""
 import os, re
 from . import common
 
@@ -83,13 +84,14 @@ def scan():
     rule = lambda src, dst: (re.search(r"RawCastFunction::new\(DataTypeId::%s, &\w+::<\w+, %s>::new\(\), ([A-Za-z0-9_:]+)," % (src, dst), td) or [None, None])[1]
     r = [rule("Int64", "Decimal128Type"), rule("UInt64", "Decimal128Type"), rule("Decimal64", "Decimal128Type"), rule("UInt64", "Decimal64Type"),
          rule("Int64", "Decimal64Type")]
-    wide_def = bool(re.search(r"pub const WIDE_TO_DECIMAL128_CAST_RULE: CastRule =\s*CastRule::Implicit\(DEFAULT_IMPLICIT_CAST_SCORES\.f64 \+ 2\);", cm))
+    wide_def = bool(re.search(r"pub const INT64_TO_DECIMAL128_CAST_RULE: CastRule =\s*CastRule::Implicit\(DEFAULT_IMPLICIT_CAST_SCORES\.f64 - 1\);", cm)
+                    and re.search(r"pub const DECIMAL64_TO_DECIMAL128_CAST_RULE: CastRule =\s*CastRule::Implicit\(DEFAULT_IMPLICIT_CAST_SCORES\.f64 \+ 2\);", cm))
     scores = bool(re.search(r"f64: 181,", cm) and re.search(r"decimal64: 141,", cm) and re.search(r"decimal128: 140,", cm))
     if not scores or r[4] != "CastRule::Explicit":
         t["wide_dec128"] = None
     elif r[:4] == ["TO_DECIMAL128_CAST_RULE"] * 3 + ["TO_DECIMAL64_CAST_RULE"]:
         t["wide_dec128"] = 0
-    elif r[:4] == ["WIDE_TO_DECIMAL128_CAST_RULE"] * 3 + ["CastRule::Explicit"] and wide_def:
+    elif r[:4] == ["INT64_TO_DECIMAL128_CAST_RULE"] * 2 + ["DECIMAL64_TO_DECIMAL128_CAST_RULE", "CastRule::Explicit"] and wide_def:
         t["wide_dec128"] = 1
     else:
         t["wide_dec128"] = None
